@@ -267,6 +267,31 @@ func (P *Program) pkgByName(name string) *types.Package {
 	return nil
 }
 
+// isInterfaceMethod: key "(pkg.I).M" where pkg.I is an interface type with method M.
+func (P *Program) isInterfaceMethod(key string) bool {
+	if !strings.HasPrefix(key, "(") || strings.HasPrefix(key, "(*") {
+		return false
+	}
+	k := strings.Index(key, ").")
+	if k < 0 {
+		return false
+	}
+	t := P.typeByName(key[1:k])
+	if t == nil {
+		return false
+	}
+	it, ok := t.Underlying().(*types.Interface)
+	if !ok {
+		return false
+	}
+	for i := 0; i < it.NumMethods(); i++ {
+		if it.Method(i).Name() == key[k+2:] {
+			return true
+		}
+	}
+	return false
+}
+
 func (P *Program) contractFor(key string) *Contract {
 	if c, ok := P.cs.ByKey[key]; ok {
 		return c
